@@ -327,6 +327,8 @@ def main(ctx):
             for pattern in ("ties", "huge", "inf", "f32overflow"):
                 for n in ((9,) if ctx.quick else (3, 4, 9)):
                     cases.append({"space": sp, "sampler": name, "opts": opts, "bs": 3 if name not in ("ParticleSwarm",) else 2, "seed": S, "n": n, "pattern": pattern})
+    for name, opts in L.CHEAP + L.COSTLY:   # larger-scope probes: 40-row history, batch of 6, five parameters
+        cases.append({"space": [0, 3, 4, 8, 11], "sampler": name, "opts": opts, "bs": 6 if name != "ParticleSwarm" else 5, "seed": S, "n": 40, "pattern": "f32overflow"})
     for i in range(32):
         if cases[i::32]:
             cells.append({"kind": "nomod", "cases": cases[i::32]})
@@ -351,6 +353,9 @@ def main(ctx):
                     for n in (3, 4, 9):
                         for seed in range(S, S + (2 if ctx.quick else 6)):
                             bc.append({"space": sp, "opts": {"perturbation_range": pr, "a": a, "b": b}, "bs": 3, "seed": seed, "n": n, "pattern": pattern})
+    for pr in (2, 6, 11):
+        for seed in range(S, S + 4):
+            bc.append({"space": [0, 3, 4, 8, 11], "opts": {"perturbation_range": pr, "a": 3.0, "b": 1.0}, "bs": 8, "seed": seed, "n": 40, "pattern": "ties"})
     for i in range(16):
         cells.append({"kind": "bestbatch", "cases": bc[i::16]})
     ctx.bounds = {"no_modification": {"samplers": len(L.CHEAP) + len(L.COSTLY), "spaces": len(spaces1 + spaces2), "loss_patterns": ["ties", "huge", "inf", "f32overflow"], "successive_calls": 3},
